@@ -25,7 +25,7 @@ LEVEL = "exploration"
 ENGINE = "vloop"
 BUDGET = {"quick": (400, 16), "thorough": (30000, 220)}
 WORKERS = {"quick": 4, "thorough": 16}
-REQUIRED = ["sequential", "queue_order", "outcome", "never_queued", "stop_restores", "inflight_not_queued", "killed_inflight_then_resubmitted", "stop_empties_queue", "stop_with_duplicate_submission"]
+REQUIRED = ["sequential", "queue_order", "outcome", "never_queued", "stop_restores", "inflight_not_queued", "killed_inflight_then_resubmitted", "stop_empties_queue", "stop_with_duplicate_submission", "held_in_final_hook"]
 TECHNIQUE = "runtime monitoring: real ClientPlayback on a virtual-time loop with an in-memory origin; ordered event-log checker"
 RULE = (
     "case = (1-8 flows of kinds replayable / live / intercepted / no-content / tcp / websocket / already-modified, per-flow origin plan, "
@@ -40,15 +40,32 @@ KINDS = ["ok", "ok", "ok", "modified", "live", "intercepted", "nocontent", "tcp"
 
 
 class Recorder:
-    def __init__(self, log, loop):
+    def __init__(self, log, loop, holds=None):
         self.log = log
         self.loop = loop
+        self.holds = holds if holds is not None else {}
+
+    def _maybe_hold(self, f):
+        # an addon/script intercepts the replayed flow in its final hook (the stock intercept addon skips replays) and the
+        # user resumes it later: the replay is finished only then
+        d = self.holds.get(f.request.path)
+        if d is not None and not f.intercepted:
+            f.intercept()
+            self.log.append(("held", f.request.path, self.loop.now()))
+
+            def resume():
+                self.log.append(("resumed", f.request.path, self.loop.now()))
+                f.resume()
+
+            self.loop.call_later(d, resume)
 
     def response(self, f):
         self.log.append(("response", f.request.path, self.loop.now()))
+        self._maybe_hold(f)
 
     def error(self, f):
         self.log.append(("error", f.request.path, self.loop.now()))
+        self._maybe_hold(f)
 
     def request(self, f):
         self.log.append(("request_hook", f.request.path, self.loop.now()))
@@ -152,7 +169,8 @@ def run_case(ctx, r):
 
     async def main():
         cp = clientplayback.ClientPlayback()
-        rec = Recorder(log, loop)
+        holds = {}
+        rec = Recorder(log, loop, holds)
         from mitmproxy.addons.proxyserver import Proxyserver
 
         with taddons.context(cp, rec, Proxyserver()) as tctx:
@@ -160,9 +178,11 @@ def run_case(ctx, r):
             for f in flows:
                 if isinstance(f, http.HTTPFlow):
                     plans[f.request.path] = (r.choice(["ok", "ok", "oksplit", "oksplit", "reset", "eof", "garbage"]), r.choice([0.05, 0.5, 3]))
+                    if r.random() < 0.25:
+                        holds[f.request.path] = r.choice([0.2, 2.0, 6.0])
             plans["__connect__"] = [r.choice(["ok", "ok", "ok", "refuse", "slow"]) for _ in range(n * 2)]
             before = [state_wo_backup(f) for f in flows]
-            result.update(flows=flows, before=before, kinds=kinds, plans=dict(plans))
+            result.update(flows=flows, before=before, kinds=kinds, plans=dict(plans), holds=dict(holds))
             cp.running()
             submit = list(flows)
             dup = None
@@ -251,7 +271,7 @@ def classify(kind, info):
 def check(ctx, result, log):
     flows, kinds, before = result["flows"], result["kinds"], result["before"]
     path = lambda f: f.request.path if isinstance(f, http.HTTPFlow) else None  # noqa: E731
-    witness = {"kinds": kinds, "plans": {k: v for k, v in result["plans"].items()}, "stop_at": result.get("stop_at"), "resubmit": result.get("resubmit"), "kill_inflight": result.get("kill_inflight"), "log": [(a, b, round(c - 1_000_000, 3)) for a, b, c in log][:80]}
+    witness = {"kinds": kinds, "plans": {k: v for k, v in result["plans"].items()}, "holds": result.get("holds"), "stop_at": result.get("stop_at"), "resubmit": result.get("resubmit"), "kill_inflight": result.get("kill_inflight"), "log": [(a, b, round(c - 1_000_000, 3)) for a, b, c in log][:80]}
     replayable = [f for f, k in zip(flows, kinds) if k in ("ok", "modified")]
     # ---- never queued
     ctx.count("never_queued")
@@ -270,13 +290,27 @@ def check(ctx, result, log):
     # ---- sequential + order (per submission epoch; resubmission makes order ambiguous -> only sequential is checked then)
     ctx.count("sequential")
     inflight = None
-    for e in log:
+    held = set()
+    for idx, e in enumerate(log):
         if e[0] == "arrival":
             if inflight is not None:
-                ctx.violation("request-sent-before-previous-replay-finished", {**witness, "arrived": e[1], "still_in_flight": inflight})
+                ctx.violation("request-sent-before-previous-replay-finished", {**witness, "arrived": e[1], "still_in_flight": inflight, "previous_held_in_final_hook": inflight in held})
             inflight = e[1]
         elif e[0] in ("response", "error") and e[1] == inflight:
-            inflight = None
+            # the final hook: the replay ends here unless the flow is intercepted in it (then "held" follows at the same instant)
+            nxt = log[idx + 1] if idx + 1 < len(log) else None
+            if not (nxt and nxt[0] == "held" and nxt[1] == e[1]):
+                inflight = None
+        elif e[0] == "held":
+            ctx.count("held_in_final_hook")
+            held.add(e[1])
+            if inflight is None:
+                inflight = e[1]  # failed before anything reached the origin (refused connect): still unfinished while held
+        elif e[0] in ("resumed", "kill_inflight") and e[1] in held:
+            # resumed by the user, or killed (kill() resumes an intercepted flow): the final hook completes now
+            held.discard(e[1])
+            if inflight == e[1]:
+                inflight = None
     if "left_in_queue_by_stop" in result:
         ctx.count("stop_empties_queue")
         if result["dup"]:
